@@ -88,10 +88,6 @@ impl<S> FaultyWalStore<S> {
         }
     }
 
-    pub fn into_inner(self) -> S {
-        self.inner
-    }
-
     /// Decide whether this call is the planned faulty one.
     fn faulty(&mut self, kind: CallKind) -> Option<FaultMode> {
         let plan = self.plan.as_mut()?;
